@@ -23,7 +23,10 @@ MODULES = {
     "hist_c02": ("src/histogram.rs", K / "hist_c02.rs"),
     "hist_c18": ("src/histogram.rs", K / "hist_c18.rs"),
     "model_c16": ("src/lib.rs", K / "model_c16.rs"),
+    "text_c04": ("src/encoder/text.rs", K / "text_c04.rs"),
+    "misc_c17": ("src/histogram.rs", K / "misc_c17.rs"),
     "registry_c06": ("src/registry.rs", K / "registry_c06.rs"),
+    "registry_c07": ("src/registry.rs", K / "registry_c07.rs"),
     "vec_c05": ("src/vec.rs", K / "vec_c05.rs"),
     "desc_c15": ("src/desc.rs", K / "desc_c15.rs"),
     "desc_c09": ("src/desc.rs", K / "desc_c09.rs"),
@@ -61,8 +64,19 @@ FMT_REDIRECTS = [
     ("src/metrics.rs", 'format!("{}_{}", namespace, name)', "crate::__vsup::fmt_join2(namespace, name)"),
     ("src/metrics.rs", 'format!("{}_{}", subsystem, name)', "crate::__vsup::fmt_join2(subsystem, name)"),
     ("src/registry.rs", 'format!("{}_{}", namespace, m.name())', "crate::__vsup::fmt_join2(namespace, m.name())"),
+    # slice::sort_by cannot be stubbed (Kani rejects the stub's signature), so its single call site
+    # in gather() is redirected to the contract function as well
+    ("src/registry.rs", "mf.mut_metric().sort_by(|m1, m2| {", "crate::__vsup::stub_sort_by(mf.mut_metric(), |m1, m2| {"),
 ]
 SORT_ASSUMPTION = "std slice::sort / sort_by are replaced by their contract (stable sorted permutation; insertion sort in kani/vsup.rs) in harnesses carrying `kani::stub(<[T]>::sort, stub_sort)`: std's driftsort does not leave CBMC's symbolic execution even for one-element slices (measured)"
+TEXT_REDIRECTS = [
+    ("src/encoder/text.rs", "&value.to_string()", "&crate::__vsup::f64_token(value)"),
+    ("src/encoder/text.rs", "&timestamp.to_string()", "&crate::__vsup::i64_token(timestamp)"),
+    ("src/encoder/text.rs", "&upper_bound.to_string()", "&crate::__vsup::f64_token(upper_bound)"),
+    ("src/encoder/text.rs", "&q.quantile().to_string()", "&crate::__vsup::f64_token(q.quantile())"),
+    ("src/encoder/text.rs", 'format!("{:?}", metric_type).to_lowercase()', "crate::__vsup::type_name_lower(metric_type)"),
+]
+TEXT_ASSUMPTION = "std number formatting is replaced by opaque injective tokens at its 4 call sites in encoder/text.rs (f64::to_string x3, i64::to_string) and `format!(\"{:?}\", metric_type).to_lowercase()` by the table counter/gauge/summary/untyped/histogram (exact-text rewrite in the scratch copy): that std's shortest round-trip Display/FromStr of f64 is faithful (finite values bit-exact, inf/NaN preserved) and that derive(Debug) prints the variant name are ASSUMED; a full parser round trip is not run inside the verifier"
 FMT_ASSUMPTION = "std format! is replaced by its contract at the 5 call sites whose result is used functionally (desc.rs `format!(\"${}\", label_name)` -> \"$\" ++ name; metrics.rs build_fq_name's three joins and registry.rs gather's prefix join -> a ++ \"_\" ++ b) by exact-text rewrite in the scratch copy; every other format! builds an error message and is stubbed to the empty string. Reason: std::fmt::write does not terminate under CBMC even on concrete arguments (measured > 5 min)"
 MAPS_ASSUMPTION = "std HashMap/HashSet/BTreeMap/BTreeSet are replaced by the contract shim /verif/kani/vcoll.rs (functional map with key equality; HashMap iteration order is a nondeterministic permutation at every iteration = every hash seed; BTree* iterate in key order) through a mechanical rewrite of the `use std::collections::...` lines of counter.rs, desc.rs, histogram.rs, metrics.rs, vec.rs, registry.rs, pulling_gauge.rs in the scratch copy; the std implementations themselves are assumed to meet that contract"
 
@@ -136,6 +150,18 @@ PLAN = {
         functions=[],
         assumptions=[A2, ENV, "ledger invariant 'shared = direct + sum of flushed batches' is proved per step from arbitrary states (sequential) and lifted to all histories by the Verus lemmas (sum_append / conservation); the vector forms (GenericLocalCounterVec, LocalHistogramVec: with_label_values cache, remove_label_values, drop of the whole vector) are NOT under contract in the quick tier: their children are the local metrics covered here, their cache is a map keyed by the C05 hash"],
     ),
+    "C17": dict(
+        title="Fallible APIs report bad input as Err and do not panic",
+        level="proof",
+        maps=True,
+        text=True,
+        modules=["desc_c09", "vec_c05", "registry_c06", "text_c04", "hist_c08", "misc_c17"],
+        crate_modules=["__vrec"],
+        contract_sets=["charset"],
+        verus=[],
+        functions=[],
+        assumptions=[MAPS_ASSUMPTION, FMT_ASSUMPTION, SORT_ASSUMPTION, TEXT_ASSUMPTION, "'no reachable panic' is CBMC's default obligation in EVERY harness of every property (panic!, unwrap, index, arithmetic overflow, unreachable); the harnesses listed here sweep the Result-returning entry points over invalid arguments of bounded size, as the property itself states", "ProtobufEncoder::encode is covered by C13's harness, not here; remove()/get_metric_with() map forms are in the thorough tier (c05_map_form_errors)"],
+    ),
     "C18": dict(
         title="A timer records its duration exactly once, or never when discarded",
         level="proof",
@@ -154,6 +180,15 @@ PLAN = {
         verus=[],
         functions=[],
         assumptions=[MAPS_ASSUMPTION, FMT_ASSUMPTION, SORT_ASSUMPTION, "Desc::new acceptance is decided for one const + one variable label with one-character names over all of ASCII plus concrete scenarios (bounded); the identifier validators are decided on strings of <= 4 chars with one arbitrary Unicode char; per-char classifiers for every char (complete)", "registry-level clause (prefix and common labels of Registry::new_custom are not validated and may clash with a metric's own labels) is NOT decided here: see DESIGN.md C09"],
+    ),
+    "C04": dict(
+        title="Text exposition is a faithful, parseable rendering of the gathered state",
+        level="proof",
+        text=True,
+        modules=["text_c04"],
+        verus=["c04_escape.rs"],
+        functions=[],
+        assumptions=[TEXT_ASSUMPTION, "escape_string is discharged by exhaustive enumeration of concrete strings over the alphabet {a, backslash, LF, quote, CR, e-acute, CJK} up to length 2 (quick) / 3 (thorough), each executed by CBMC on the real code: bounded, enumerated -- symbolic content is out of reach (measured); the unbounded part is the Verus lemmas over the spec function", "layout functions are checked on concrete families against literal expected text (bounded, enumerated)", "encode / encode_utf8 / encode_to_string all delegate to encode_impl with a writer that appends (io::Write::write_all / String::push_str): append-only and equality of the three entry points rest on that delegation, which is visible in the source but not a separate obligation"],
     ),
     "C05": dict(
         title="A metric vector keeps exactly one child per distinct label-value tuple",
@@ -203,6 +238,24 @@ PLAN = {
         functions=[],
         assumptions=["the argument is: (1) the accessor algebra (defaults, set/get, frame, take, from_*, LabelPair order) holds for BOTH data models -- the same harness text is compiled and proved under --no-default-features and under default features; (2) every model accessor called from feature-independent source is in that algebra (mechanical closure check tools/c16_closure.py); hence the same client code computes the same gather() structure and text bytes. Step (2)->conclusion is a paper argument (observational equivalence of two implementations of one abstract data type)", "derive(Debug) of MetricType (used for the `# TYPE` line through format!) prints the variant name in both models: assumed (std formatting is out of CBMC's reach here)", "the protobuf crate's MessageField / EnumOrUnknown wrappers are executed as compiled, not assumed"],
     ),
+    "C07": dict(
+        title="gather() is complete, canonically ordered and deterministic",
+        level="proof",
+        maps=True,
+        modules=["registry_c06", "registry_c07"],
+        verus=[],
+        functions=[],
+        assumptions=[MAPS_ASSUMPTION, FMT_ASSUMPTION, SORT_ASSUMPTION, "collectors are harness structs emitting one family with one sample each (values symbolic over all f64); that the library's own metric types emit 'one sample per child with the descriptor's help/type' is the collect() contract of C10 (vectors) and value.rs (single metrics), not re-proved here", "hash seed / registration order = the two iteration orders of a two-element map (enumerated)"],
+    ),
+    "C14": dict(
+        title="A gathered family never mixes metric types",
+        level="proof",
+        maps=True,
+        modules=["registry_c06", "registry_c07", "model_c16"],
+        verus=[],
+        functions=[],
+        assumptions=[MAPS_ASSUMPTION, FMT_ASSUMPTION, SORT_ASSUMPTION, "that collectors of different kinds sharing name+help but differing in const-label values pass registration is the C06 admission contract (ids differ, dimension hashes agree)", "KNOWN FINDING KF-C14-1 (not repaired): gather merges such collectors into one family whose declared type is the first one iterated; see known_findings.json and DESIGN.md"],
+    ),
     "C08": dict(
         title="Bucket counts follow 'value <= upper bound' for every input",
         level="proof",
@@ -230,6 +283,8 @@ def inject_spec(pid: str, features: str = "plain"):
         spec["crate_modules"].append(("__vcoll", CRATE_MODULES["__vcoll"]))
         spec["redirects"] += MAP_REDIRECTS
         spec["replacements"] = list(FMT_REDIRECTS)
+    if p.get("text"):
+        spec["replacements"] = spec.get("replacements", []) + list(TEXT_REDIRECTS)
     spec["contracts"] = list(p.get("contracts", []))
     for cs in p.get("contract_sets", []):
         spec["contracts"] += CONTRACTS[cs]
